@@ -92,7 +92,8 @@ def cases(ctx):
         rhdr = rkn + ['b', 'b2'][:rng.randint(0, 2)]
         rng.shuffle(lhdr)
         rng.shuffle(rhdr)
-        ragged = 0.3 if (op != 'hashantijoin' and rng.random() < 0.25) else 0.0
+        useidx = rng.random() < 0.12        # keys given by position (rectangular tables)
+        ragged = 0.3 if (op != 'hashantijoin' and rng.random() < 0.25 and not useidx) else 0.0
 
         def side(hdr, kn, tag, n):
             rows = []
@@ -111,6 +112,15 @@ def cases(ctx):
         else:
             kw['lkey'] = lkn[0] if nkey == 1 else tuple(lkn)
             kw['rkey'] = rkn[0] if nkey == 1 else tuple(rkn)
+        if useidx:
+            li, ri = [lhdr.index(f) for f in lkn], [rhdr.index(f) for f in rkn]
+            for k_ in ('key', 'lkey', 'rkey'):
+                kw.pop(k_, None)
+            if li == ri and rng.random() < 0.5:
+                kw['key'] = li[0] if nkey == 1 else tuple(li)
+            else:
+                kw['lkey'] = li[0] if (nkey == 1 and rng.random() < 0.7) else tuple(li)
+                kw['rkey'] = ri[0] if (nkey == 1 and rng.random() < 0.7) else tuple(ri)
         if op != 'hashantijoin':
             if rng.random() < 0.2:
                 kw['lprefix'] = 'l_'
